@@ -70,9 +70,10 @@ Print Assumptions C02_sprint_leaf_noninterference.
    with %+v / %#v field and type names), maps (keys shared), interface slots, pointers - nested to any
    depth - over related leaves, and VALUES OF USER TYPES whose String / Error / GoString method
    returns related strings (no Formatter / SafeFormatter / SafeMessager; methods that return; error
-   values only when no error hook is installed) [vrel]; container types not declared safe. *)
+   values only when no error hook is installed) [vrel]; container types not declared safe; and
+   for Unsafe(x) with x such a tree [arel]. *)
 Theorem C02_sprintf_tree_noninterference : forall fuel env f a1 a2 o1 o2,
-  osane (orc env) -> no_star f = true -> Forall2 (vrel (hooked env)) a1 a2 ->
+  osane (orc env) -> no_star f = true -> Forall2 (arel (hooked env)) a1 a2 ->
   sprintf fuel env f a1 = ROk o1 -> sprintf fuel env f a2 = ROk o2 ->
   forall ops1 ops2, o_log o1 = ops1 ++ [OTake] -> o_log o2 = ops2 ++ [OTake] ->
   rawok ops1 = true -> ptail_ok_from init ops1 = true -> ptail_ok_from init ops2 = true ->
@@ -81,7 +82,7 @@ Proof. exact sprintf_tree_noninterference. Qed.
 Print Assumptions C02_sprintf_tree_noninterference.
 
 Theorem C02_sprint_tree_noninterference : forall fuel env a1 a2 o1 o2,
-  osane (orc env) -> Forall2 (vrel (hooked env)) a1 a2 ->
+  osane (orc env) -> Forall2 (arel (hooked env)) a1 a2 ->
   sprint fuel env a1 = ROk o1 -> sprint fuel env a2 = ROk o2 ->
   forall ops1 ops2, o_log o1 = ops1 ++ [OTake] -> o_log o2 = ops2 ++ [OTake] ->
   rawok ops1 = true -> ptail_ok_from init ops1 = true -> ptail_ok_from init ops2 = true ->
@@ -150,12 +151,15 @@ Definition c02_tree (name : bytes) (id : Z) (tag : bytes) (x : Z) : list value :
    VSlice (c02_t [91;93;101;114;114;111;114]%N) false
      [VIface [101;114;114;111;114]%N (Some
         (VUser (c02_t [42;109;97;105;110;46;69]%N) (mkI false false true false false false) false
-               (VPtr (c02_t [42;109;97;105;110;46;69]%N) 53248 None) [ARet tag]))]].
-Definition c02_fmt2 : bytes := [37;43;118;124;37;118;124;37;118;124;37;118]%N.
+               (VPtr (c02_t [42;109;97;105;110;46;69]%N) 53248 None) [ARet tag]))];
+   (* Unsafe(struct with a declared-safe field): everything inside the envelope *)
+   VUnsafe (VStruct (c02_t [109;97;105;110;46;81]%N)
+              [([75]%N, true, VStr (mkT [83;118;83;116;114]%N true false) [111;107]%N); ([86]%N, true, VInt c02_ti id)])].
+Definition c02_fmt2 : bytes := [37;43;118;124;37;118;124;37;118;124;37;118;124;37;118]%N.
 
-Lemma c02_trees_related : Forall2 (vrel (hooked (mkEnv c02_orc None))) (c02_tree [97;98]%N 42 [120;10;121]%N 5) (c02_tree [99;100]%N 4711 [122;10;122]%N 77).
+Lemma c02_trees_related : Forall2 (arel (hooked (mkEnv c02_orc None))) (c02_tree [97;98]%N 42 [120;10;121]%N 5) (c02_tree [99;100]%N 4711 [122;10;122]%N 77).
 Proof.
-  unfold c02_tree. constructor; [|constructor; [|constructor; [|constructor; [|constructor]]]].
+  unfold c02_tree. constructor; [left|constructor; [left|constructor; [left|constructor; [left|constructor; [right|constructor]]]]].
   - apply vr_struct; [reflexivity | reflexivity|].
     constructor; [split; [reflexivity|]; apply vr_leaf; c02_lrel; split; [reflexivity | c02_srel]|].
     constructor; [split; [reflexivity|]; apply vr_leaf; c02_lrel; split; [reflexivity|]; unfold irel, Fmt.two64; lia|].
@@ -170,6 +174,10 @@ Proof.
     constructor; [|constructor]. split; [reflexivity|]. apply vr_leaf. c02_lrel. split; [reflexivity | c02_srel].
   - apply vr_slice; [reflexivity | reflexivity|]. constructor; [|constructor]. apply vr_iface.
     apply vr_user; try reflexivity; [right; c02_srel | apply vr_ptr_nil; reflexivity].
+  - eexists _, _. split; [reflexivity|]. split; [reflexivity|].
+    apply vr_struct; [reflexivity | reflexivity|].
+    constructor; [split; [reflexivity|]; apply vr_leaf, lrel_refl; reflexivity|].
+    constructor; [|constructor]. split; [reflexivity|]. apply vr_leaf. c02_lrel. split; [reflexivity|]. unfold irel, Fmt.two64. lia.
 Qed.
 
 Example C02_tree_nonvacuous :
